@@ -49,3 +49,6 @@ theories/L2/WakeStep1.vos theories/L2/WakeStep1.vok theories/L2/WakeStep1.requir
 theories/L2/WakeStep2.vo theories/L2/WakeStep2.glob theories/L2/WakeStep2.v.beautified theories/L2/WakeStep2.required_vo: theories/L2/WakeStep2.v theories/L2/Model.vo theories/L2/Base.vo theories/L2/Own.vo theories/L2/Jobs.vo theories/L2/Shape.vo theories/L2/DwInv.vo theories/L2/Wake.vo theories/L2/WakeInv.vo theories/L2/WakeLem.vo theories/L2/WakeStep1.vo
 theories/L2/WakeStep2.vio: theories/L2/WakeStep2.v theories/L2/Model.vio theories/L2/Base.vio theories/L2/Own.vio theories/L2/Jobs.vio theories/L2/Shape.vio theories/L2/DwInv.vio theories/L2/Wake.vio theories/L2/WakeInv.vio theories/L2/WakeLem.vio theories/L2/WakeStep1.vio
 theories/L2/WakeStep2.vos theories/L2/WakeStep2.vok theories/L2/WakeStep2.required_vos: theories/L2/WakeStep2.v theories/L2/Model.vos theories/L2/Base.vos theories/L2/Own.vos theories/L2/Jobs.vos theories/L2/Shape.vos theories/L2/DwInv.vos theories/L2/Wake.vos theories/L2/WakeInv.vos theories/L2/WakeLem.vos theories/L2/WakeStep1.vos
+theories/L2/WakeStep3.vo theories/L2/WakeStep3.glob theories/L2/WakeStep3.v.beautified theories/L2/WakeStep3.required_vo: theories/L2/WakeStep3.v theories/L2/Model.vo theories/L2/Base.vo theories/L2/Own.vo theories/L2/Jobs.vo theories/L2/Shape.vo theories/L2/DwInv.vo theories/L2/Wake.vo theories/L2/WakeInv.vo theories/L2/WakeLem.vo theories/L2/WakeStep1.vo theories/L2/WakeStep2.vo
+theories/L2/WakeStep3.vio: theories/L2/WakeStep3.v theories/L2/Model.vio theories/L2/Base.vio theories/L2/Own.vio theories/L2/Jobs.vio theories/L2/Shape.vio theories/L2/DwInv.vio theories/L2/Wake.vio theories/L2/WakeInv.vio theories/L2/WakeLem.vio theories/L2/WakeStep1.vio theories/L2/WakeStep2.vio
+theories/L2/WakeStep3.vos theories/L2/WakeStep3.vok theories/L2/WakeStep3.required_vos: theories/L2/WakeStep3.v theories/L2/Model.vos theories/L2/Base.vos theories/L2/Own.vos theories/L2/Jobs.vos theories/L2/Shape.vos theories/L2/DwInv.vos theories/L2/Wake.vos theories/L2/WakeInv.vos theories/L2/WakeLem.vos theories/L2/WakeStep1.vos theories/L2/WakeStep2.vos
